@@ -168,6 +168,24 @@ def reused_header(c, rng):
 
 
 def generate(rng, tier, seed):
+    # headers whose text repeats the digits of their own length field (fixed fields, block data, id + length, count + reserved)
+    from props.tr31util import self_referential
+    for ver in "ABCD":
+        bs = VERS[ver][0]
+        for h, key, mask, note in self_referential(rng, ver):
+            c = Case(f"{ver}:self-referential-length-digits", {"note": note})
+            w = wrap_case(c, rb(rng, 16), h, key, mask)
+            if w.ok:
+                m = framing(w.value, ver, h)
+                if m:
+                    c.fail(f"key block ({note}): {m}")
+            s = c.call("tr31.Header.__str__", h, op="header.str", stream="tr31")
+            if s.ok:
+                g = tr31.Header()
+                r = call_impl(g.load, (s.value,), stream="tr31")
+                if not r.ok or r.value != len(s.value) or header_tuple(g) != header_tuple(h) or s.value[1:5] != str(len(s.value)).zfill(4):
+                    c.fail(f"str(header) does not re-load to an equal header ({note})")
+            yield c
     top = 200 if tier == "quick" else 600
     for _ in range(60 if tier == "quick" else 400):
         c = Case("reused-header-sequence", {})
